@@ -273,7 +273,20 @@ def layouts(fdefs, cst):
             raise ExtractError("unhandled node kind " + k)
 
         end = walk(top, 12, [])
-        table.append({"number": num, "lists": lists, "hands": hands, "fixed_bits": end,
+        # decode shape: what the outcome class of a CRC-valid frame of this number depends on
+        top_n = frags[top]
+        shape = {"kind": "other", "fixedbits": -1, "satbits": -1, "sigbits": -1, "gnss": ""}
+        seg = [f for _, f in top_n.get("fields", []) if frags.get(f, {}).get("kind") == "msm_seg"]
+        if end is not None and not lists and not hands:
+            shape = {"kind": "fixed", "fixedbits": end, "satbits": -1, "sigbits": -1, "gnss": ""}
+        elif seg and top_n.get("fields", [])[-1][1] == seg[0]:
+            sg = frags[seg[0]]
+            satb = sum(fw[f]["w"] for _, f in frags[sg["sat"]]["fields"])
+            sigb = sum(fw[f]["w"] for _, f in frags[sg["sig"]]["fields"])
+            shape = {"kind": "msm", "fixedbits": hands[0]["off"] if hands and hands[0]["off"] is not None else -1, "satbits": satb, "sigbits": sigb, "gnss": sg["gnss"]}
+        elif len(lists) == 1 and lists[0]["count_off"] is not None and lists[0]["elem_bits"] is not None and lists[0]["kind"] in ("len_middle", "vec_with_len") and not hands:
+            shape = {"kind": "list", "fixedbits": lists[0]["elems_off"], "satbits": -1, "sigbits": -1, "gnss": ""}
+        table.append({"number": num, "lists": lists, "hands": hands, "fixed_bits": end, "shape": shape,
                       "kind": frags[top]["kind"], "msm": any(frags.get(f, {}).get("kind") == "msm_seg" for _, f in frags[top].get("fields", []))})
     if len(table) < 100:
         raise ExtractError("only %d messages found" % len(table))
@@ -355,6 +368,9 @@ def emit_layouts_tla(table, path):
          "(* (-1: not at a fixed position / variable).                                  *)\n"
          "EXTENDS Integers\n"
          "ListTable == <<\n" + ",\n".join(rows) + "\n>>\n"
+         "(* decode shape per message number: fixed (reads exactly fixedbits), list (one count-prefixed list of fixed-size elements, last), *)\n"
+         "(* msm (header of fixedbits, then masks and rows of satbits / sigbits per row), other                                              *)\n"
+         "MsgTable == <<\n" + ",\n".join('  [number |-> %d, kind |-> "%s", fixedbits |-> %d, satbits |-> %d, sigbits |-> %d, gnss |-> "%s"]' % (t["number"], t["shape"]["kind"], t["shape"]["fixedbits"], t["shape"]["satbits"], t["shape"]["sigbits"], t["shape"]["gnss"]) for t in table) + "\n>>\n"
          "(* payload bit offset of hand-written fragments (text, bias lists) and MSM data segments *)\n"
          "HandTable == <<\n" + ",\n".join(hrows) + "\n>>\n"
          "=============================================================================\n")
